@@ -237,38 +237,52 @@ def _r2(ck: Checker, prog: Program):
     m = tcls.methods["update_peaks_bounded"]
     fq = m.qualname
     cfg = cfg_of(m)
-    loops = [st for st in m.node.body if isinstance(st, ast.For)]
+    peak_targets = ("_main_peak_frq", "_main_peak_amp", "valid_window_boolean_mask", "valid_peak_boolean_mask")
+
+    def writes_peaks(st):
+        return any(isinstance(x, ast.Subscript) and isinstance(x.ctx, ast.Store) and isinstance(x.value, ast.Attribute) and x.value.attr in peak_targets for x in ast.walk(st))
+    loops = [st for st in m.node.body if isinstance(st, ast.For) and writes_peaks(st)]
     if len(loops) != 1:
-        raise AnalysisError(f"{fq}: expected one per-window loop")
+        raise AnalysisError(f"{fq}: expected one per-window loop that records the peaks (found {len(loops)}; whole-array forms are not interpreted)")
     lp = loops[0]
-    if unparse(lp.iter) != "enumerate(self.amplitude)" or not isinstance(lp.target, ast.Tuple) or any(isinstance(x, (ast.Break,)) for x in ast.walk(lp)):
+    from ..resolve import Resolver, canon
+    RR = Resolver(prog, m, inline=False)
+    it_ok = isinstance(lp.target, ast.Tuple) and len(lp.target.elts) == 2 and canon(RR.value(lp.iter, lp)) == canon(RR.expect("enumerate(self.amplitude)"))
+    if not it_ok or any(isinstance(x, (ast.Break,)) for x in ast.walk(lp)):
         ck.violation("C08.R2", fq, norm_key(lp), "the loop does not visit every row of self.amplitude (or may stop early)", loc=m.loc(lp))
         return
     ck.ok("C08.R2", fq, norm_key(lp), nontrivial=False)
     idx, row = unparse(lp.target.elts[0]), unparse(lp.target.elts[1])
     targets = ["_main_peak_frq", "_main_peak_amp", "valid_window_boolean_mask", "valid_peak_boolean_mask"]
-
-    def classify(n):
-        a = cfg.ast_of(n)
-        if cfg.kind(n) == "stmt" and isinstance(a, ast.Assign) and isinstance(a.targets[0], ast.Subscript) \
-                and isinstance(a.targets[0].value, ast.Attribute) and unparse(a.targets[0].value.value) == "self" \
-                and a.targets[0].value.attr in targets and unparse(a.targets[0].slice) == idx:
-            return targets.index(a.targets[0].value.attr)
-        return None
-    res = events_per_iteration(cfg, lp, classify, 4)
-    if res == {(1, 1, 1, 1)}:
-        ck.ok("C08.R2", fq, "each iteration assigns frequency, amplitude and both masks exactly once", detail=str(sorted(res)))
-    else:
-        bad = sorted(res - {(1, 1, 1, 1)})
-        ck.violation("C08.R2", fq, "definite assignment per window",
-                     f"an iteration can end having written {dict(zip(targets, bad[0])) if bad else res} (times) for window `{idx}`: "
-                     f"a peak or mask entry keeps a stale value after the range changes", loc=m.loc(lp))
     # values per outcome (decision table of the loop body)
     R = lambda n: sp.Symbol(n, real=True)   # noqa: E731
     gi, NONE = sp.Function("getitem"), sp.Symbol("None")
     IDX, ROW = sp.Symbol("<window index>", integer=True), R("<window row>")
     hook = _norecv(pkg_call_hook(prog, m.module, prog.cls("HvsrCurve"), self_name="HvsrCurve"))
-    leaves = PathTable(prog, m.module, call_hook=hook, env={idx: IDX, row: ROW}).leaves(lp.body)
+    leaves = PathTable(prog, m.module, call_hook=hook, env={idx: IDX, row: ROW}, unroll=True).leaves(lp.body)
+    # definite assignment: every complete pass writes each of the four per-window entries exactly once, at this window's index
+    from ..pathtable import store_site
+    counts = set()
+    for l in leaves:
+        if l.exit == "raise":
+            continue
+        if l.exit not in ("fall", "continue"):
+            counts.add(("leaves the loop", l.exit))
+            continue
+        n_ = {t: 0 for t in targets}
+        for e in l.events:
+            if e[0] == "store":
+                site = store_site(l, e)
+                if site is not None and str(site[0]).startswith("self.") and str(site[0])[5:] in targets and site[1] == IDX:
+                    n_[str(site[0])[5:]] += 1
+        counts.add(tuple(n_[t] for t in targets))
+    if counts == {(1, 1, 1, 1)}:
+        ck.ok("C08.R2", fq, "each iteration assigns frequency, amplitude and both masks exactly once", detail=f"{len(leaves)} paths through the loop body")
+    else:
+        bad = sorted(map(str, counts - {(1, 1, 1, 1)}))
+        ck.violation("C08.R2", fq, "definite assignment per window",
+                     f"an iteration can end having written {bad[0] if bad else counts} (times, in the order {targets}) for window `{idx}`: "
+                     f"a peak or mask entry keeps a stale value after the range changes", loc=m.loc(lp))
     call = None
     for l in leaves:
         for a in sp.preorder_traversal(sp.Tuple(*[e[2] for e in l.events if e[0] == "store"], *[c for c, _t in l.conds])):
@@ -296,8 +310,8 @@ def _r2(ck: Checker, prog: Program):
         seen.add(c)
         vals = {}
         for e in l.events:
-            if e[0] == "store" and id(e[3]) in l.store_at:
-                base, ix = l.store_at[id(e[3])]
+            if e[0] == "store" and store_site(l, e) is not None:
+                base, ix = store_site(l, e)
                 if ix == IDX and str(base).startswith("self."):
                     vals[str(base)[5:]] = _under(l, e[2])
         want = {"_main_peak_frq": sp.nan, "_main_peak_amp": sp.nan, "valid_window_boolean_mask": sp.false, "valid_peak_boolean_mask": sp.false} if c else \
